@@ -3,6 +3,21 @@ optionally damaged by line-level faults."""
 from . import refconv, schemas
 
 
+class Line(str):
+    """A line of generated text that remembers what it is: info = dict with
+    role ('key' | 'open' | 'close' | 'empty' | 'blank'), cont (name of the
+    containing type, '' = top level), child (the declared item), type."""
+    info = None
+
+    def __new__(cls, text, **info):
+        o = str.__new__(cls, text)
+        o.info = info
+        return o
+
+    def indented(self, ind):
+        return Line(ind + self, **self.info)
+
+
 class Gen:
     def __init__(self, rng, rec, maxdepth=3):
         self.rng = rng
@@ -31,8 +46,9 @@ class Gen:
             return self.rng.choice(["host-b", "HOST-C", "10.0.0.1", "h.example"])
         return self.rng.choice(["x1", "X2", "y3", "zed"]) if kt != "identifier" else self.rng.choice(["x1", "X2", "y_3"])
 
-    def body(self, T, depth):
+    def body(self, T, depth, cont=""):
         rng = self.rng
+        L = Line
         blocks = []
         for c in T["children"]:
             if c["kind"] in ("key", "multikey"):
@@ -46,16 +62,18 @@ class Gen:
                         if c["kind"] == "key" and nk in used:
                             continue
                         used.add(nk)
-                        blocks.append([("%s %s" % (k, rng.choice(good))).rstrip()])
+                        blocks.append([L(("%s %s" % (k, rng.choice(good))).rstrip(), role="key", cont=cont, child=c)])
                 elif c["kind"] == "key":
                     if c["req"] or rng.random() < 0.6:
-                        blocks.append([("%s %s" % (self.key_spelling(T["keytype"], c["name"]), rng.choice(good))).rstrip()])
+                        blocks.append([L(("%s %s" % (self.key_spelling(T["keytype"], c["name"]), rng.choice(good))).rstrip(),
+                                         role="key", cont=cont, child=c)])
                 else:
                     n = rng.choice([0, 1, 2, 3])
                     if c["req"] and not c["dflt"]:
                         n = max(n, 1)
                     for _ in range(n):
-                        blocks.append([("%s %s" % (self.key_spelling(T["keytype"], c["name"]), rng.choice(good))).rstrip()])
+                        blocks.append([L(("%s %s" % (self.key_spelling(T["keytype"], c["name"]), rng.choice(good))).rstrip(),
+                                         role="key", cont=cont, child=c)])
             else:
                 if depth >= self.maxdepth and not c["req"]:
                     continue
@@ -73,18 +91,20 @@ class Gen:
                     else:
                         name = c["name"]
                     tnw = tn.upper() if rng.random() < 0.2 else tn
-                    inner = self.body(self.rec["types"][tn], depth + 1)
+                    inner = self.body(self.rec["types"][tn], depth + 1, cont=tn)
                     head = "<%s%s>" % (tnw, (" " + name) if name else "")
                     if not inner and rng.random() < 0.5:
-                        blocks.append([head[:-1] + "/>"])
+                        blocks.append([L(head[:-1] + "/>", role="empty", cont=cont, child=c, type=tn, name=name)])
                     else:
-                        blocks.append([head] + ["  " + l for l in inner] + ["</%s>" % tn])
+                        blocks.append([L(head, role="open", cont=cont, child=c, type=tn, name=name)]
+                                      + [l.indented("  ") for l in inner]
+                                      + [L("</%s>" % tn, role="close", cont=cont, child=c, type=tn, name=name)])
         rng.shuffle(blocks)
         out = []
         for b in blocks:
             out += b
             if rng.random() < 0.1:
-                out.append(rng.choice(["", "# note"]))
+                out.append(L(rng.choice(["", "# note"]), role="blank", cont=cont))
         return out
 
     def text(self):
